@@ -82,7 +82,7 @@ class C06(Prop):
                            depth=9, seed=self.seed + 30 + n, collect=True)
             for e in r.printed:
                 if e[0] == "S" and e[1] % 3 == 0:
-                    self.big.append((n, e[3]))
+                    self.big.append((n, e[3], e))
 
     def scenarios(self):
         thorough = self.tier == "thorough"
@@ -116,11 +116,19 @@ class C06(Prop):
                     sid += 1
                     yield {"k": "mstate", "rows": ins_to_state(m), "r": r, "arg": {"rows": ins_to_state(m2), "r": r2},
                            "seed": self.seed * 7919 + sid * 64}
-        for bi, (n, m) in enumerate(self.big):
+        from .c03 import group_elements
+        for bi, (n, m, e) in enumerate(self.big):
             for r in range(n + 1):
+                # determined outcomes: signed elements of the state's own group (products of up to n generators)
+                ge = group_elements(e, r)
+                if ge:
+                    els = [w[:-1] + [(w[-1] + 2 * rng.randrange(2)) % 4] for w in rng.sample(ge, min(len(ge), 6))]
+                    sid += 1
+                    yield {"k": "m1", "rows": ins_to_state(m), "r": r, "obs": [[x] for x in els] + [l for l in (els[:3], els[1:5]) if len(l) >= 2], "seed": self.seed * 7919 + sid * 64}
                 herm_s = [[rng.randrange(4) for _ in range(n)] + [rng.choice((0, 2))] for _ in range(10)]
                 # commuting lists: signed subsets of the stabilizer half of another valid tableau
-                other = ins_to_state(self.big[(bi * 7 + 3) % len(self.big)][1]) if self.big[(bi * 7 + 3) % len(self.big)][0] == n else ins_to_state(m)
+                ob = self.big[(bi * 7 + 3) % len(self.big)]
+                other = ins_to_state(ob[1]) if ob[0] == n else ins_to_state(m)
                 stab = [w[:-1] + [rng.choice((0, 2))] for w in other[:n]]
                 lists = [[h] for h in herm_s] + [rng.sample(stab, rng.randrange(2, n + 1)) for _ in range(4)]
                 sid += 1
